@@ -595,6 +595,14 @@ func (e *specEnv) call(s *SExpr) Val {
 			i.T, vc.intSort(), j.T, vc.intSort(),
 			vc.cmp("<=", vc.intLit(0), i.T, true), vc.cmp("<", i.T, j.T, true), vc.cmp("<", j.T, vc.slLen(sv), true),
 			vc.slArr(sv), i.T, vc.slArr(sv), j.T))
+	case "fresh":
+		// fresh(p): the reference p was allocated during the call/function (not before its entry)
+		if e.old == nil {
+			e.fail("fresh() needs an old state")
+		}
+		v := argv(0)
+		top := x.lookupHeap(e.old, "top", "Int")
+		return boolVal(fmt.Sprintf("(>= %s %s)", v.T, top.T))
 	case "unixnano":
 		// unixnano(n): the time.Time whose UnixNano() is n
 		x.vc.declConst("unix_epoch_offset", x.vc.intSort())
